@@ -155,6 +155,10 @@ class Roles:
             return d
         if isinstance(e, ast.Constant):
             return set()
+        if isinstance(e, ast.IfExp):
+            # the VALUE is one of the two arms; the test only decides which (`idx[key] if key in idx else ()` with the key read from the other race is still a value of
+            # the race the index was built from) - as with the filter of a comprehension
+            return self.deps(e.body, env) | self.deps(e.orelse, env)
         d = set()
         for c in ast.iter_child_nodes(e):
             if isinstance(c, ast.expr):
@@ -395,6 +399,26 @@ class _Interp:
         else:
             raise minieval.CannotEval(f"assignment target {u(t)[:40]}")
 
+    @staticmethod
+    def _slot_root(e, env):
+        """the local mapping M (a plain dict value of the environment) when e is `M[key]` or `M.setdefault(key[, default])`, else None"""
+        m_ = e.value if isinstance(e, ast.Subscript) and not isinstance(e.slice, ast.Slice) else (
+            e.func.value if isinstance(e, ast.Call) and isinstance(e.func, ast.Attribute) and e.func.attr == "setdefault" and 1 <= len(e.args) <= 2 and not e.keywords and
+            not any(isinstance(a_, ast.Starred) for a_ in e.args) else None)
+        return env[m_.id] if isinstance(m_, ast.Name) and type(env.get(m_.id)) is dict else None
+
+    def _slot(self, e, env):
+        """the value stored in a local mapping under a key (`M[key]`), resp. stored there now when the key is new (`M.setdefault(key, default)`)"""
+        from sa import minieval
+
+        root = self._slot_root(e, env)
+        try:
+            if isinstance(e, ast.Subscript):
+                return root[self.ev(e.slice, env)]
+            return root.setdefault(self.ev(e.args[0], env), self.ev(e.args[1], env) if len(e.args) == 2 else None)
+        except (KeyError, TypeError) as x:
+            raise minieval.CannotEval(f"{u(e)[:60]}: {type(x).__name__}")
+
     def run(self, stmts, env):
         def hook(s_, env_, b):
             if isinstance(s_, ast.FunctionDef):
@@ -417,6 +441,19 @@ class _Interp:
                     raise minieval.CannotEval(f"statement {u(s_)[:60]}: effect on a local container")
                 try:
                     getattr(recv, c_.func.attr)(*[self.ev(a_, env_) for a_ in c_.args])
+                except (TypeError, ValueError) as x:
+                    raise minieval.CannotEval(f"statement {u(s_)[:60]}: {type(x).__name__}")
+                return "skip"
+            if isinstance(s_, ast.Expr) and isinstance(s_.value, ast.Call) and isinstance(s_.value.func, ast.Attribute) and s_.value.func.attr in ("append", "extend", "add") and \
+                    self._slot_root(s_.value.func.value, env_) is not None:
+                # a statement that grows a container kept IN a local mapping (`groups.setdefault(key, []).append(x)`, `groups[key].append(x)`): performed on the value;
+                # a shape this interpreter does not know is never skipped silently
+                c_ = s_.value
+                recv = self._slot(c_.func.value, env_)
+                if not isinstance(recv, (list, set)) or not hasattr(recv, c_.func.attr) or c_.keywords or len(c_.args) != 1 or isinstance(c_.args[0], ast.Starred):
+                    raise minieval.CannotEval(f"statement {u(s_)[:60]}: effect on a container of a local mapping")
+                try:
+                    getattr(recv, c_.func.attr)(self.ev(c_.args[0], env_))
                 except (TypeError, ValueError) as x:
                     raise minieval.CannotEval(f"statement {u(s_)[:60]}: {type(x).__name__}")
                 return "skip"
@@ -2253,7 +2290,7 @@ def run(chk):
             ('stale', None) when it is only bound outside the iteration, None when it cannot be derived (bound from the element in another way: a converted / derived id)"""
             inside = scope[id(outer_n)]
             asg = [n for n in ast.walk(f) if isinstance(n, (ast.Assign, ast.NamedExpr)) and
-                   any(isinstance(x, ast.Name) and x.id == idv for t_ in (n.targets if isinstance(n, ast.Assign) else [n.target]) for x in ast.walk(t_))]
+                   any(isinstance(x, ast.Name) and x.id == idv and isinstance(x.ctx, ast.Store) for t_ in (n.targets if isinstance(n, ast.Assign) else [n.target]) for x in ast.walk(t_))]
             here = [n for n in asg if id(n) in inside and n.lineno <= before]
             loops = [it_ for it_ in its if any(isinstance(x, ast.Name) and x.id == idv for x in ast.walk(it_[1]))]
             if loops:
@@ -2308,34 +2345,60 @@ def run(chk):
                         ok = got == k_in
                         why = "" if ok else f": `{idv}` is `{outer_tg.id}[{got}]`, the contender's element is selected by `[{k_in}]` - the two lists are paired by different members"
                     chk.ob("O20.2", inst, ok, t, f"`{u(t)}`" + why, key=f"{_R}:ComparisonReporter.{name}:pairing:{u(outer_iter)}")
-        # the index shape: `idx = {c[K]: c for c in <list>}` looked up with the id of the current element of an iteration over the other list
+        # the index shape: `idx = {c[K]: c for c in <list>}`, or a local mapping FILLED by a loop over the list under the member of each element (`idx[c[K]] = c`; a grouping:
+        # `idx.setdefault(c[K], []).append(c)`, `idx[c[K]].append(c)` on a defaultdict; the key possibly bound to a local of the loop first), looked up (`idx[<id>]`,
+        # `idx.get(<id>[, default])` - also as the iterable of a loop over the group) with the id of the current element of an iteration over the other list
+        indexes = []  # (name of the mapping, the iteration that fills it, the list it iterates, member the elements are filed under)
         for idx, d_ in fdefs_p.items():
-            if not (isinstance(d_, ast.DictComp) and len(d_.generators) == 1 and isinstance(d_.generators[0].target, ast.Name) and not d_.generators[0].ifs and
-                    isinstance(d_.value, ast.Name) and d_.value.id == d_.generators[0].target.id and elem_key(d_.key, d_.generators[0].target.id) is not None):
-                continue
-            k_in = elem_key(d_.key, d_.generators[0].target.id)
-            for outer_n, outer_tg, outer_iter, _ in its:
-                if not isinstance(outer_tg, ast.Name) or outer_n is d_.generators[0]:
-                    continue
-                for x in [x for x in ast.walk(f) if id(x) in scope[id(outer_n)]]:
-                    key_e = None
-                    if isinstance(x, ast.Subscript) and isinstance(x.value, ast.Name) and x.value.id == idx and isinstance(x.ctx, ast.Load):
-                        key_e = x.slice
-                    elif isinstance(x, ast.Call) and isinstance(x.func, ast.Attribute) and x.func.attr == "get" and isinstance(x.func.value, ast.Name) and x.func.value.id == idx and x.args:
-                        key_e = x.args[0]
-                    if key_e is None:
+            if isinstance(d_, ast.DictComp) and len(d_.generators) == 1 and isinstance(d_.generators[0].target, ast.Name) and not d_.generators[0].ifs and \
+                    isinstance(d_.value, ast.Name) and d_.value.id == d_.generators[0].target.id and elem_key(d_.key, d_.generators[0].target.id) is not None:
+                indexes.append((idx, d_.generators[0], d_.generators[0].iter, elem_key(d_.key, d_.generators[0].target.id)))
+            elif (isinstance(d_, ast.Dict) and not d_.keys) or (isinstance(d_, ast.Call) and (dotted(d_.func) or "").rsplit(".", 1)[-1] in ("dict", "defaultdict", "OrderedDict") and
+                                                                 not any(isinstance(a_, (ast.Dict, ast.DictComp, ast.Call)) or (isinstance(a_, ast.Name) and a_.id not in ("list", "set", "tuple", "dict")) for a_ in d_.args) and not d_.keywords):
+                for fill_n, fill_tg, fill_iter, _ in its:
+                    if not (isinstance(fill_n, ast.For) and isinstance(fill_tg, ast.Name)):
                         continue
-                    inst = f"{name}: `{u(d_.generators[0].iter)}` (indexed by `{k_in}`) paired with the current element of `{u(outer_iter)}`"
-                    n_pair += weight(d_.generators[0], d_.generators[0].iter)
-                    paired.setdefault(id(f), (f, []))[1].append((outer_n, d_.generators[0], None))
-                    got = elem_key(key_e, outer_tg.id) if not isinstance(key_e, ast.Name) else bound_from(key_e.id, outer_n, outer_tg.id, x.lineno)
-                    if got is None:
-                        chk.unknown("O20.2", f"{inst}: where the key `{u(key_e)}` of the lookup comes from cannot be derived", x)
-                    elif isinstance(got, tuple):
-                        chk.ob("O20.2", inst, False, x, f"`{u(x)}`: the key is not the `{k_in}` of the current element" + (f" (bound from `{got[1]}`)" if got[1] else " (bound outside this loop)"),
-                               key=f"{_R}:ComparisonReporter.{name}:pairing:{u(outer_iter)}")
-                    else:
-                        chk.ob("O20.2", inst, got == k_in, x, f"`{u(x)}`" + ("" if got == k_in else f": looked up by `[{got}]` in an index built on `[{k_in}]`"), key=f"{_R}:ComparisonReporter.{name}:pairing:{u(outer_iter)}")
+                    keys = []
+                    for x in [x for x in ast.walk(fill_n) if id(x) in scope[id(fill_n)]]:
+                        if isinstance(x, ast.Subscript) and isinstance(x.value, ast.Name) and x.value.id == idx and not isinstance(x.slice, ast.Slice):
+                            keys.append((x.slice, x))
+                        elif isinstance(x, ast.Call) and isinstance(x.func, ast.Attribute) and x.func.attr == "setdefault" and isinstance(x.func.value, ast.Name) and x.func.value.id == idx and x.args:
+                            keys.append((x.args[0], x))
+                    if not keys:
+                        continue
+                    members = {elem_key(k_, fill_tg.id) if not isinstance(k_, ast.Name) else bound_from(k_.id, fill_n, fill_tg.id, x_.lineno) for k_, x_ in keys}
+                    # the elements themselves are filed (the loop variable is stored / appended), not one of their members
+                    files_elem = any(isinstance(y, ast.Name) and y.id == fill_tg.id and isinstance(y.ctx, ast.Load) and not isinstance(source.parent(y), (ast.Subscript, ast.Attribute)) for s_ in fill_n.body for y in ast.walk(s_))
+                    if len(members) == 1 and isinstance(next(iter(members)), str) and files_elem:
+                        indexes.append((idx, fill_n, fill_iter, next(iter(members))))
+        for idx, fill_n, fill_iter, k_in in indexes:
+            for x in ast.walk(f):
+                key_e = None
+                if isinstance(x, ast.Subscript) and isinstance(x.value, ast.Name) and x.value.id == idx and isinstance(x.ctx, ast.Load) and not isinstance(x.slice, ast.Slice):
+                    key_e = x.slice
+                elif isinstance(x, ast.Call) and isinstance(x.func, ast.Attribute) and x.func.attr == "get" and isinstance(x.func.value, ast.Name) and x.func.value.id == idx and x.args:
+                    key_e = x.args[0]
+                if key_e is None or id(x) in scope.get(id(fill_n), ()):
+                    continue
+                # the iterations the lookup is evaluated in, innermost last; the one whose element the key is read from is the pairing (a table-driven loop over the statistics
+                # in between is not), else the innermost
+                cands = [(o_n, o_tg, o_iter) for o_n, o_tg, o_iter, _ in its if isinstance(o_tg, ast.Name) and o_n is not fill_n and id(x) in scope[id(o_n)] and id(o_n) not in scope.get(id(fill_n), ())]
+                if not cands:
+                    continue
+                cands.sort(key=lambda c_: len(scope[id(c_[0])]), reverse=True)
+                gots = [elem_key(key_e, o_tg.id) if not isinstance(key_e, ast.Name) else bound_from(key_e.id, o_n, o_tg.id, x.lineno) for o_n, o_tg, o_iter in cands]
+                pick = next((i_ for i_ in reversed(range(len(cands))) if isinstance(gots[i_], str)), len(cands) - 1)
+                (outer_n, outer_tg, outer_iter), got = cands[pick], gots[pick]
+                inst = f"{name}: `{u(fill_iter)}` (indexed by `{k_in}`) paired with the current element of `{u(outer_iter)}`"
+                n_pair += weight(fill_n, fill_iter)
+                paired.setdefault(id(f), (f, []))[1].append((outer_n, fill_n, None))
+                if got is None:
+                    chk.unknown("O20.2", f"{inst}: where the key `{u(key_e)}` of the lookup comes from cannot be derived", x)
+                elif isinstance(got, tuple):
+                    chk.ob("O20.2", inst, False, x, f"`{u(x)}`: the key is not the `{k_in}` of the current element" + (f" (bound from `{got[1]}`)" if got[1] else " (bound outside this loop)"),
+                           key=f"{_R}:ComparisonReporter.{name}:pairing:{u(outer_iter)}")
+                else:
+                    chk.ob("O20.2", inst, got == k_in, x, f"`{u(x)}`" + ("" if got == k_in else f": looked up by `[{got}]` in an index built on `[{k_in}]`"), key=f"{_R}:ComparisonReporter.{name}:pairing:{u(outer_iter)}")
     located(n_pair >= 5, "O20.2", "id-paired statistics located", rep, f"{n_pair} pairing test(s)")
     # every element (id) BOTH lists contain gets its lines - wherever it is stored in the two lists -, paired with ITSELF, and every such element the same number of lines.
     # Decided on VALUES: each method that pairs two list-valued statistics is evaluated (its helpers interpreted with it; the line constructor replaced by a recorder of its
@@ -3199,4 +3262,78 @@ VARIANTS += [
     [V("s5 per-shard: hoisted minimum of the baseline defaults to 0", "break", _R, '                baseline_per_shard.get("min"),\n                contender_per_shard.get("min"),\n', "                baseline_min,\n                contender_min,\n", "O20.5"),
      V("", "break", _R, '    def _report_total_time_per_shard(self, name, baseline_per_shard, contender_per_shard):\n        unit = "min"\n',
        '    def _report_total_time_per_shard(self, name, baseline_per_shard, contender_per_shard):\n        unit = "min"\n        baseline_min = baseline_per_shard.get("min", 0)\n        contender_min = contender_per_shard.get("min")\n')],
+]
+
+# ---- hardening round 5 (benign C20-b12): the contender's list GROUPED by id in a local mapping filled by a loop, each baseline element looks its group up ----
+_ML_CONST_AT = "def summarize(results, cfg: types.Config):\n"
+_ML_CONST = 'ML_PROCESSING_TIME_STATISTICS = (("Min", "min"), ("Mean", "mean"), ("Median", "median"), ("Max", "max"))\n\n\n'
+
+
+def _ml_grouped(fill='            contenders_by_job.setdefault(contender["job"], []).append(contender)\n', init="{}", lookup="contenders_by_job.get(job_name, ())", bind='baseline["job"]',
+                table="ML_PROCESSING_TIME_STATISTICS", flag="False", ops="baseline[statistic],\n                            contender[statistic]", guard="baseline_stats"):
+    """the b12 shape: contender jobs grouped by name once (setdefault / a defaultdict / membership test), one loop over the (label, key) table per matched pair"""
+    return (
+        "    def _report_ml_processing_times(self, baseline_stats, contender_stats):\n"
+        "        if not " + guard + ".ml_processing_time:\n            return []\n"
+        "        contenders_by_job = " + init + "\n        for contender in contender_stats.ml_processing_time:\n" + fill + "\n"
+        "        lines = []\n        for baseline in baseline_stats.ml_processing_time:\n            job_name = " + bind + '\n            unit = baseline["unit"]\n'
+        "            for contender in " + lookup + ":\n                for label, statistic in " + table + ":\n"
+        '                    lines.append(\n                        self._line(\n                            f"{label} ML processing time",\n                            ' + ops + ",\n"
+        "                            job_name,\n                            unit,\n                            treat_increase_as_improvement=" + flag + ",\n                        )\n                    )\n"
+        "        return lines\n\n"
+    )
+
+
+_ML_TABLE_LIT = '(("Min", "min"), ("Mean", "mean"), ("Median", "median"), ("Max", "max"))'
+_ML_FILL_TEST = ('            key = contender["job"]\n            if key not in contenders_by_job:\n                contenders_by_job[key] = []\n'
+                 "            contenders_by_job[key].append(contender)\n")
+
+
+def _ml_index_stat_loop(key="job"):
+    """the contender found through an index, the lookup inside a loop over the statistics (an iteration between the pairing iteration and the lookup)"""
+    return (
+        "    def _report_ml_processing_times(self, baseline_stats, contender_stats):\n        lines = []\n"
+        '        contender_by_job = {contender["' + key + '"]: contender for contender in contender_stats.ml_processing_time}\n'
+        '        for baseline in baseline_stats.ml_processing_time:\n            job_name = baseline["job"]\n            unit = baseline["unit"]\n'
+        '            for stat in ("min", "mean", "median", "max"):\n                contender = contender_by_job.get(job_name)\n                if contender is not None:\n'
+        '                    lines.append(self._line(f"{stat.title()} ML processing time", baseline[stat], contender[stat], job_name, unit, treat_increase_as_improvement=False))\n'
+        "        return lines\n\n"
+    )
+
+
+VARIANTS += [
+    [V("h5 b12 shape: contender ML jobs grouped by name (setdefault), one loop over a module-level (label, key) table", "keep", _R, _ML_RE, _ml_grouped(), regex=True),
+     V("", "keep", _R, _ML_CONST_AT, _ML_CONST + _ML_CONST_AT)],
+    V("h5 b12 shape with the table inline", "keep", _R, _ML_RE, _ml_grouped(table=_ML_TABLE_LIT), regex=True),
+    V("h5 ML jobs grouped behind a membership test, the key kept in a local of the filling loop", "keep", _R, _ML_RE, _ml_grouped(fill=_ML_FILL_TEST, table=_ML_TABLE_LIT), regex=True),
+    V("h5 ML jobs indexed by a loop (`idx[c['job']] = [c]`), looked up by subscript behind a membership test", "keep", _R, _ML_RE,
+      _ml_grouped(fill='            contenders_by_job[contender["job"]] = [contender]\n', lookup="(contenders_by_job[job_name] if job_name in contenders_by_job else ())", table=_ML_TABLE_LIT), regex=True),
+    V("h5 ML jobs grouped: the lookup key read directly from the baseline element", "keep", _R, _ML_RE, _ml_grouped(lookup='contenders_by_job.get(baseline["job"], ())', table=_ML_TABLE_LIT), regex=True),
+    V("h5 ML contender found through an index, lookup inside a loop over the statistics", "keep", _R, _ML_RE, _ml_index_stat_loop(), regex=True),
+    V("h5 grouped ML jobs filed under another member than the one looked up", "break", _R, _ML_RE,
+      _ml_grouped(fill='            contenders_by_job.setdefault(contender["unit"], []).append(contender)\n', table=_ML_TABLE_LIT), "O20.2", regex=True),
+    V("h5 grouped ML jobs looked up by another member of the baseline job", "break", _R, _ML_RE, _ml_grouped(bind='baseline["unit"]', table=_ML_TABLE_LIT), "O20.2", regex=True),
+    V("h5 grouped ML jobs: the grouping loop stops after the contender's first job", "break", _R, _ML_RE,
+      _ml_grouped(fill='            contenders_by_job.setdefault(contender["job"], []).append(contender)\n            break\n', table=_ML_TABLE_LIT), "O20.5", regex=True),
+    V("h5 grouped ML jobs: only a slice of the contender's list is grouped", "break", _R, _ML_RE,
+      _ml_grouped(table=_ML_TABLE_LIT).replace("for contender in contender_stats.ml_processing_time:", "for contender in contender_stats.ml_processing_time[1:]:"), "O20.5", regex=True),
+    V("h5 grouped ML jobs: the method returns inside the loop over the baseline's jobs", "break", _R, _ML_RE,
+      _ml_grouped(table=_ML_TABLE_LIT).replace("                    )\n        return lines\n", "                    )\n            return lines\n        return lines\n"), "O20.5", regex=True),
+    V("h5 grouped ML jobs: direction flag of the table-driven lines inverted", "break", _R, _ML_RE, _ml_grouped(flag="True", table=_ML_TABLE_LIT), "O20.1", regex=True),
+    V("h5 grouped ML jobs: operands of the table-driven lines exchanged", "break", _R, _ML_RE,
+      _ml_grouped(ops="contender[statistic],\n                            baseline[statistic]", table=_ML_TABLE_LIT), "O20.2", regex=True),
+    V("h5 ML index with a statistics loop in between, built on another member", "break", _R, _ML_RE, _ml_index_stat_loop(key="unit"), "O20.2", regex=True),
+]
+
+_ML_FILL_DD = '            contenders_by_job[contender["job"]].append(contender)\n'
+VARIANTS += [
+    [V("h5 ML jobs grouped in a defaultdict(list) (not evaluable: read off the control flow)", "keep", _R, _ML_RE,
+       _ml_grouped(init="collections.defaultdict(list)", fill=_ML_FILL_DD, lookup="contenders_by_job[job_name]", table=_ML_TABLE_LIT), regex=True),
+     V("", "keep", _R, "import csv\n", "import collections\nimport csv\n")],
+    [V("h5 ML jobs grouped in a defaultdict(list): the grouping loop stops after the first job", "break", _R, _ML_RE,
+       _ml_grouped(init="collections.defaultdict(list)", fill=_ML_FILL_DD + "            break\n", lookup="contenders_by_job[job_name]", table=_ML_TABLE_LIT), "O20.5", regex=True),
+     V("", "break", _R, "import csv\n", "import collections\nimport csv\n")],
+    [V("h5 ML jobs grouped in a defaultdict(list) under another member", "break", _R, _ML_RE,
+       _ml_grouped(init="collections.defaultdict(list)", fill='            contenders_by_job[contender["unit"]].append(contender)\n', lookup="contenders_by_job[job_name]", table=_ML_TABLE_LIT), "O20.2", regex=True),
+     V("", "break", _R, "import csv\n", "import collections\nimport csv\n")],
 ]
